@@ -10,7 +10,7 @@ GENERATORS = ['gen_rip']
 COQ_TARGETS = ['Props/C20.vo', 'Run/RunC20.vo']
 PROPS_MODULE = 'Props.C20'
 THEOREMS = ['base36_total', 'base36_non_digit_is_error', 'parse_step_safe', 'tokenizer_safe', 'arity_bound', 'params_in_range', 'tok_resync',
-            'pstate_overflow_witness', 'row_loop_checked', 'bar_rect_safe', 'put_pixel_safe', 'kernel_safe', 'kernel_seq_safe', 'rip_stream_safe']
+            'pstate_overflow_witness', 'row_loop_checked', 'row_guard_is_break', 'bar_rect_safe', 'put_pixel_safe', 'kernel_safe', 'kernel_seq_safe', 'rip_stream_safe']
 SWEEP_LEMMAS = ['RipTokProofs.tables_ok (all 52 generated parse tables: every field index inside the struct, `_` arm is text or error, a continuing arm of a fixed-arity table has a successor, no empty fixed-arity table)',
                 'RipStreamProofs.kernel_weights_ok (no field of a kernel command is fed more than two base-36 digits)',
                 'RipTokProofs.lf_not_command (line feed is not a command letter in the three generated dispatch tables)',
@@ -162,7 +162,7 @@ def rip_special(tables):
           '!|1\x1b0000query $X$^m|', '!|1R00000000file.rip|', '!|9\x1b00010000ICON.ICN<>|', '!|9\x1b|', '!|1W0file.icn|',
           '!|w000000000!', '!|w00001B0M10|', '!|w00000000 0|', '!|w0000000000|text while suspended!|c01|', '!|w0A0A00001 |', '!|w1000000000|', '!|w0010000000|',
           '!|Q000102030405060708090A0B0C0D0E0F|', '!|Q1S|', '!|Q1R|', '!|QZZ|', '!|Q00|c0F|X0101|', '!|Q|X0101|', '!|a051B|', '!|a051S|', '!|a0Z1R|', '!|aZZ00|', '!|aZZZZ|',
-          '!|F00000F|', '!|v0A0A1E1E|F0F0F0F|', '!|v0A0A1E1E|F14140F|', '!|v00000505|F0A0A01|', '!|v0A0AZZZZ|F0B0B0F|', '!|vZZZZ0000|F00000F|', '!|v0000HR9P|F000001|',
+          '!|F00000F|', '!|V234020A40HH0|v1100ZZZ0|F8359x3|', '!|v0A0A1E1E|F0F0F0F|', '!|v0A0A1E1E|F14140F|', '!|v00000505|F0A0A01|', '!|v0A0AZZZZ|F0B0B0F|', '!|vZZZZ0000|F00000F|', '!|v0000HR9P|F000001|',
           '!|S010F|B00000A0A|F0505 0F|', '!|c0F|R05051E1E|S010A|F0A0A0F|', '!|c0F|R05051E1E|S0B0A|F0A0A0F|', '!|c0F|R00000505|S0100|F02020F|',
           '!|P00|', '!|P01|', '!|P010101|', '!|p00|', '!|p01|', '!|p0100|', '!|l00|', '!|l|', '!|P|', '!|p|', '!|pZZ' + '0A' * 40 + '|', '!|P03010105090905|', '!|p03010105050909|',
           '!|p03ZZZZ00ZZZZ00|', '!|p0300ZZ00ZZ0000|', '!|l03010105050909|', '!|S000F|p03010105050909|', '!|c00|p03010105050909|',
@@ -391,7 +391,7 @@ def cmd_name(lang, piece):
 def attribute(ctx, fails):
     """failures without a panic location (timeout / oom / abort / stack overflow): re-run the stream one command per chunk with
     a generous limit; the worker reports progress on stderr, so the command during which it died (or which alone took longer
-    than 5 s) names the signature.  A sequence that is merely long (no single command above 5 s) is not a failure."""
+    than 5 s of CPU time) names the signature.  A sequence that is merely long (no single command above 5 s) is not a failure."""
     pend = [f for f in fails if f.get('pending')]
     if not pend: return
     todo = pend[:24]
@@ -401,7 +401,7 @@ def attribute(ctx, fails):
         stream = bytes.fromhex(h).decode('latin-1')
         f['_pieces'] = split_cmds(lang, stream)
         cases.append('%stime %s' % (lang, ' '.join(hx(p) for p in f['_pieces'])))
-    res = ctx.impl(cases, per_case_timeout=40, jobs=8)
+    res = ctx.impl(cases, per_case_timeout=150, jobs=8)
     for f, r in zip(todo, res):
         lang = f['input'].split()[0]
         pieces = f.pop('_pieces')
@@ -411,6 +411,8 @@ def attribute(ctx, fails):
             if not slow:
                 f['drop'] = True; continue
             k = slow[0]; cls = 'timeout'
+        elif r[0] == 'panic':      # died differently on the second run: report what it is now
+            f['signature'] = '%s-panic:%s' % (lang, enclosing_fn(ctx.repo, r[1])); continue
         else:
             m = re.search(r'c20-progress (\d+)', r[1] or '')
             cls = r[0]
@@ -451,9 +453,10 @@ def search(ctx, broken):
             streams.append(('rip', [i], '!' + pre + s[1:]))
     for c, s in igs_exhaustive(igt, 12 if big else 3, rng): streams.append(('igs', [c], s))
     n_exh = len(streams)
-    for _ in range(ctx.n(2500, 14000)):
+    # random sequences: quick / escalated (a mutated tree; kept under ~5 min) / thorough
+    for _ in range(40000 if ctx.thorough else ctx.n(2500, 14000)):
         ids, s = gen_rip_seq(rng, tables); streams.append(('rip', ids, s))
-    for _ in range(ctx.n(1500, 9000)):
+    for _ in range(25000 if ctx.thorough else ctx.n(1500, 9000)):
         ids, s = gen_igs_seq(rng, igt); streams.append(('igs', ids, s))
     cases = ['%s %s' % (l, hx(s)) for l, _, s in streams]
     res = ctx.impl(cases, per_case_timeout=5, mem_mb=1024, jobs=8)
@@ -473,7 +476,7 @@ def search(ctx, broken):
 # ---------------------------------------------------------------------------------------------------------------
 # stage C: modelled tokenizer + kernel vs the real parser, on streams restricted to the modelled commands
 MODELLED0 = 'wv*eEgH>cQaWmXBSs$'
-MODELLED1 = 'KTtEWD\x1bR'
+MODELLED1 = 'KTtEWDR'      # not the ESC-lettered Query / EnterBlockMode: after a parse error the ESC would reach the (unmodelled) ansi parser
 XS = ['00', '00', '01', '05', '0A', '0K', '10', '1E', '2S', 'HR', 'HS', 'ZZ']
 YS = ['00', '00', '01', '05', '0A', '0K', '10', '1E', '9P', '9Q', 'ZZ']
 B36 = '0123456789ABCDEFGHIJKLMNOPQRSTUVWXYZ'
@@ -481,7 +484,6 @@ B36 = '0123456789ABCDEFGHIJKLMNOPQRSTUVWXYZ'
 def gen_model_cmd(rng):
     r = rng.random()
     if r < 0.10: lv, c = 1, rng.choice(MODELLED1)
-    elif r < 0.12: lv, c = 9, '\x1b'
     else: lv, c = 0, rng.choice(MODELLED0 + 'vvXXXBBBcSsWm')
     if lv == 0 and c in '*eEH>': 
         if c == '*' and rng.random() < 0.8: c = rng.choice('eH>E')     # full-screen clears are slow to evaluate in Coq: keep them rarer
@@ -551,7 +553,7 @@ def to_codes(s):
 
 def correspondence(ctx):
     rng = ctx.rng
-    streams = [d.encode().decode('unicode_escape') for d in DIRECTED_C] + [gen_model_stream(rng) for _ in range(ctx.n(220, 1500))]
+    streams = [d.encode().decode('unicode_escape') for d in DIRECTED_C] + [gen_model_stream(rng) for _ in range(ctx.n(220, 3000))]
     cases = ['ripobs ' + hx(s) for s in streams]
     impl = ctx.impl(cases, per_case_timeout=10)
     model = model_parallel(ctx, 'From IE Require Import Run.RunC20.\nLocal Open Scope Z_scope.', ['run_rip %s' % to_codes(s) for s in streams])
@@ -584,6 +586,11 @@ def replay(ctx, body):
     stream = bytes.fromhex(h).decode('latin-1') if h != '-' else ''
     print('stream: %r' % stream)
     print('implementation:', r)
+    if lang == 'rip':
+        o = ctx.impl(['ripobs ' + hx(stream)], per_case_timeout=10)[0]
+        m = ctx.model('From IE Require Import Run.RunC20.\nLocal Open Scope Z_scope.', ['run_rip %s' % to_codes(stream)], timeout=300)[0]
+        print('implementation state (ripobs):', o)
+        print('model (run_rip; [-2] = reaches a command outside the modelled kernel, [-1; site] = model panic):', m)
     f = classify(ctx, lang, [], stream, r)
     if f:
         attribute(ctx, [f])
